@@ -416,9 +416,17 @@ def choose_selection(rng, sc, pos, preds):
                     out.append(P[i])
         return out
 
+    def with_dups(al, idxs):
+        """the same node named twice (through different alias forms) is still one node"""
+        if al and idxs and rng.random() < 0.3:
+            for _ in range(rng.randint(1, 2)):
+                al.insert(rng.randrange(len(al) + 1), G.alias_for(rng, sc, rng.choice(idxs)))
+        return al
+
     R = X = T = None
     if roots and rng.random() < 0.4:
-        R = [G.alias_for(rng, sc, i) for i in rng.sample(roots, rng.randint(1, len(roots)))]
+        rs = rng.sample(roots, rng.randint(1, len(roots)))
+        R = with_dups([G.alias_for(rng, sc, i) for i in rs], rs)
     r = rng.random()
     if r < 0.05:
         nonroots = [i for i in range(n) if i not in roots]
@@ -431,13 +439,15 @@ def choose_selection(rng, sc, pos, preds):
     base = G.py_closure(preds, Rr, None, None) if Rr is None or all(g.in_degree(x) == 0 for x in Rr) else set()
     cand = [inv[x] for x in sorted(base) if x in inv]
     if cand and rng.random() < 0.5:
-        X = [G.alias_for(rng, sc, i) for i in rng.sample(cand, rng.randint(0, min(2, len(cand))))]
+        xs = rng.sample(cand, rng.randint(0, min(2, len(cand))))
+        X = with_dups([G.alias_for(rng, sc, i) for i in xs], xs)
     Xr = resolve(X)
     base2 = G.py_closure(preds, Rr, Xr, None) if base else set()
     cand = [inv[x] for x in sorted(base2) if x in inv]
     r = rng.random()
     if cand and r < 0.6:
-        T = [G.alias_for(rng, sc, i) for i in rng.sample(cand, rng.randint(1, min(2, len(cand))))]
+        ts = rng.sample(cand, rng.randint(1, min(2, len(cand))))
+        T = with_dups([G.alias_for(rng, sc, i) for i in ts], ts)
     elif r < 0.65:
         T = [("str", "nope")]
     elif r < 0.72 and Xr:
@@ -1246,6 +1256,25 @@ def run_H_and_composeprobe(pid, tier, seed):
     cov["rule"] += "; plus: the original DAG probed with the same arguments before and after compose() with random inputs/outputs (slice C)"
     return cov, fs + keep, None
 
+
+def run_V_and_composed_flags(pid, tier, seed):
+    """C10 also covers flags in DAGs obtained by compose(): the flag of a kept node may refer (whole or indexed) to a
+    compose input; the composed DAG must run the node exactly when the supplied value's selected part is truthy."""
+    cov, fs, searcher = run_V(pid, tier, seed)
+    covc, fsc, _ = run_C(pid, tier, seed)
+
+    def has_flag(f):
+        sc = f.scenario if isinstance(f.scenario, dict) else {}
+        return any(s_.get("flag") is not None for s_ in sc.get("specs", []))
+    keep = [f for f in fsc if f.kind == "counterexample" and has_flag(f)]
+    cov["composed_dags_with_flags"] = dict(compositions=covc.get("compositions", 0), with_flag_input=covc.get("with_flag_input", 0),
+                                           indexed_flag_inputs=covc.get("indexed_flag_inputs", 0))
+    cov["evaluations"] += covc.get("with_flag_input", 0)
+    cov["rule"] += "; plus: compositions (slice C) of DAGs whose nodes carry whole / indexed flags, flag producers made inputs"
+    return cov, fs + keep, searcher
+
+
+PROPS["C10"]["run"] = run_V_and_composed_flags
 
 reg("C15", ["Props.C15_no_state_but_setup", "Props.C15_next_call_depends_only_on_setup_state", "Props.C15_failed_operation_is_a_noop", "VM.applyOp_res_nonsetup", "Props.C01_core"], run_H_and_composeprobe, ASSUME_H)
 reg("C18", ["Props.C18_restart_same", "Props.C18_restart_runs_only_uncached", "VM.denote_seeded"], run_H, ASSUME_H)
